@@ -113,6 +113,47 @@ def _iterable_form_cases():
     return out
 
 
+def _superposition_prep(n, k):
+    """A fixed preparation circuit on n qubits (variant k) that leaves every qubit in a proper superposition in every Pauli basis."""
+    prep = []
+    for q in range(n):
+        prep.append({"name": ("ry", "rx", "ry")[(q + k) % 3], "qubits": [q], "params": [0.4 + 0.3 * q + 0.1 * k]})
+        prep.append({"name": "rz", "qubits": [q], "params": [0.9 - 0.2 * q]})
+    for q in range(n - 1):
+        prep.append({"name": ("cx", "cz")[(q + k) % 2], "qubits": [q, q + 1]})
+    for q in range(n):
+        prep.append({"name": ("rx", "ry")[(q + k) % 2], "qubits": [q], "params": [1.1 - 0.15 * q + 0.05 * k]})
+    return prep
+
+
+def _extra_measured_cases():
+    """Deterministic family (seed independent): groups whose general observable measures MORE qubits than the members use (what the
+    documented hook ObservableCollection.construct_general_observables is for -- "measure additional qubits" -- or a directly constructed
+    CommutingObservableGroup): a measured qubit on which every member is identity lies below / between / above the qubits the members act
+    on, so the position of a member's letter among the MEASURED qubits differs from its position among the qubits the members use.
+    Labels are written qubit 0 first.  Superposition preparation, so a shifted mask bit changes the decoded value."""
+    specs = [
+        ("ZZX", ["IZX", "IIX", "IZI"], None),          # extra measured qubit 0 below everything the members use
+        ("ZX", ["IX"], None),
+        ("ZXY", ["IIY", "IXY"], None),
+        ("ZZZZ", ["IIIZ", "IZII", "IZIZ"], None),      # extra measured qubits 0 and 2 (below and between)
+        ("XYZ", ["XIZ", "IIZ"], None),                 # extra measured qubit between
+        ("ZYX", ["ZYX", "IYI", "IIX"], None),          # counterpart: the union of the members is the general observable
+        ("YZXZ", ["IZII", "IIIZ"], None),              # extra measured qubits 0 and 2, members one letter each
+        ("ZZ", ["II"], None),                          # nothing used, two qubits measured
+        ("XIZY", ["IIZI", "IIIY", "IIZY"], [2, 0, 3, 1]),   # with explicit qubit locations (a permutation); qubit 1 not measured at all
+        ("ZXZ", ["IXI", "IXZ"], [3, 1, 0]),            # embedded into a wider circuit
+    ]
+    out = []
+    for k, (gl, members, locs) in enumerate(specs):
+        n = len(gl)
+        ncirc = n if locs is None else max(locs) + 1
+        out.append(("measure", {"n": n, "general": gl, "members": [{"l": m, "p": 0} for m in members], "prep": _superposition_prep(ncirc, k),
+                                "wrong_width": False, "locs": locs, "ncirc": ncirc, "cregs": [] if k % 3 else [["qpd_measurements", 1]],
+                                "always_oracle": True}))
+    return out
+
+
 def _table_cases():
     """Deterministic family (seed independent): measurement circuits on preparation circuits that leave EVERY measured qubit in a proper
     superposition in its measured basis (so that many register values occur, with member parities that differ from value to value), for
@@ -131,14 +172,7 @@ def _table_cases():
     out = []
     for k, (gl, members) in enumerate(specs):
         n = len(gl)
-        prep = []
-        for q in range(n):
-            prep.append({"name": ("ry", "rx", "ry")[(q + k) % 3], "qubits": [q], "params": [0.4 + 0.3 * q + 0.1 * k]})
-            prep.append({"name": "rz", "qubits": [q], "params": [0.9 - 0.2 * q]})
-        for q in range(n - 1):
-            prep.append({"name": ("cx", "cz")[(q + k) % 2], "qubits": [q, q + 1]})
-        for q in range(n):
-            prep.append({"name": ("rx", "ry")[(q + k) % 2], "qubits": [q], "params": [1.1 - 0.15 * q + 0.05 * k]})
+        prep = _superposition_prep(n, k)
         out.append(("measure", {"n": n, "general": gl, "members": [{"l": m, "p": 0} for m in members], "prep": prep, "wrong_width": False,
                                 "locs": None, "ncirc": n, "cregs": [] if k % 3 else [["qpd_measurements", 1]], "always_oracle": True}))
     return out
@@ -148,6 +182,7 @@ def cases(rng, tier):
     yield from _clash_cases()
     yield from _iterable_form_cases()
     yield from _table_cases()
+    yield from _extra_measured_cases()
     yield from _wide_cases(rng, tier)
     for n in (1, 2, 3):
         # groups with nothing to measure (the forced dummy measurement)
@@ -493,6 +528,16 @@ def oracle(kind, payload):
     dec = _decode(qm, cog, payload["members"], base=sum(w for _, w in payload.get("cregs", [])))
     if not np.allclose(true, dec, atol=1e-9):
         return f"decoded {list(dec)} but true expectations are {true}{getattr(dec, 'note', '')}"
+    # each bitmask marks exactly the measured positions (positions among the non-identity qubits of the general observable, ascending) on
+    # which the member acts -- also when the general observable measures qubits that no member uses
+    meas_q = [i for i, ch in enumerate(payload["general"]) if ch != "I"]
+    if len(cog.pauli_bitmasks) != len(payload["members"]):
+        return f"group {payload['general']} has {len(payload['members'])} members but {len(cog.pauli_bitmasks)} bitmasks"
+    for m, mask in zip(payload["members"], cog.pauli_bitmasks):
+        want_mask = sum(1 << pos for pos, q in enumerate(meas_q) if m["l"][q] != "I")
+        if int(mask) != want_mask:
+            return (f"bitmask of member {m['l']} in group {payload['general']} (labels qubit 0 first; measured qubits {meas_q}) is "
+                    f"{int(mask):#b}, the member acts on measured positions {want_mask:#b}")
     # the group itself is a record of where its members act: using it must not change it
     want_idx = [i for i, ch in enumerate(payload["general"]) if ch != "I"]
     if [int(i) for i in cog.pauli_indices] != want_idx:
